@@ -18,6 +18,7 @@ const contractFileName = "zz_contracts_verif.go"
 
 type Ctx struct {
 	firstIter bool // encode loops without havoc, cut at back edges (under-approximation)
+	unroll    int  // with firstIter: number of copies of each loop body (1 = leave every loop before completing an iteration)
 	repo           string
 	prog           *ssa.Program
 	pkgs           []*packages.Package
